@@ -165,6 +165,13 @@ class Filenames(object):
         # Return static filenames
         for item in static:
             currentns = self.variables.copy()
+            # Limit variables to the specified number of words.  This must
+            # be done before the invalid characters are replaced, because
+            # the blank normally is one of them.
+            for key, format in keysre.findall(item):
+                if key != 'num' and format and key in currentns:
+                    value = currentns[key].split()
+                    currentns[key] = ' '.join(value[:int(format)])
             for key, value in list(currentns.items()):
                 if self.charsub:
                     for char in self.charsub[0]:
@@ -174,15 +181,6 @@ class Filenames(object):
                 # Supply a file number as needed
                 if key == 'num':
                     currentns['num'] = ('%%.%sd' % format) % num
-                # Limit other variables to specified number of words
-                elif format and key in currentns:
-                    value = currentns[key].split()
-                    newvalue = []
-                    for i in range(int(format)):
-                        newvalue.append(value.pop(0))
-                        if not value:
-                            break
-                    currentns[key] = ' '.join(newvalue)
             try:
                 # Strip formats
                 item = re.sub(r'(\$\{\w+)\.\d+(\})', r'\1\2', item)
@@ -207,6 +205,13 @@ class Filenames(object):
             passes += 1
             for item in wildcard:
                 currentns = self.variables.copy()
+                # Limit variables to the specified number of words.  This must
+                # be done before the invalid characters are replaced, because
+                # the blank normally is one of them.
+                for key, format in keysre.findall(item):
+                    if key != 'num' and format and key in currentns:
+                        value = currentns[key].split()
+                        currentns[key] = ' '.join(value[:int(format)])
                 for key, value in list(currentns.items()):
                     if self.charsub:
                         for char in self.charsub[0]:
@@ -216,15 +221,6 @@ class Filenames(object):
                     # Supply a file number as needed
                     if key == 'num':
                         currentns['num'] = ('%%.%sd' % format) % num
-                    # Limit other variables to specified number of words
-                    elif format and key in currentns:
-                        value = currentns[key].split()
-                        newvalue = []
-                        for i in range(int(format)):
-                            newvalue.append(value.pop(0))
-                            if not value:
-                                break
-                        currentns[key] = ' '.join(newvalue)
                 try:
                     # Strip formats
                     item = re.sub(r'(\$\{\w+)\.\d+(\})', r'\1\2', item)
